@@ -372,11 +372,30 @@ class ElementTraits<std::index_sequence<I...>, Parameter...>
         }
     }
 
+    template <std::size_t K, bool IsLhsConst, bool IsRhsConst>
+    static constexpr bool equal_fixed_size_one(
+        [[maybe_unused]] const cntgs::BasicContiguousReference<IsLhsConst, Parameter...>& lhs,
+        [[maybe_unused]] const cntgs::BasicContiguousReference<IsRhsConst, Parameter...>& rhs) noexcept
+    {
+        constexpr auto INDEX = std::get<K>(CONSECUTIVE_EQUALITY_MEMCMPABLE_INDICES);
+        // the bytes of a run of several parameters only tell the elements apart when both sides cut the run alike
+        if constexpr (ParameterTraitsAt<K>::TYPE == detail::ParameterType::FIXED_SIZE &&
+                      (INDEX == SKIP || (INDEX != MANUAL && INDEX != K)))
+        {
+            return cntgs::get<K>(lhs).size() == cntgs::get<K>(rhs).size();
+        }
+        else
+        {
+            return true;
+        }
+    }
+
     template <bool IsLhsConst, bool IsRhsConst>
     static constexpr auto equal(const cntgs::BasicContiguousReference<IsLhsConst, Parameter...>& lhs,
                                 const cntgs::BasicContiguousReference<IsRhsConst, Parameter...>& rhs)
     {
-        return (ElementTraits::template equal_one<I>(lhs, rhs) && ...);
+        return (ElementTraits::template equal_fixed_size_one<I>(lhs, rhs) && ...) &&
+               (ElementTraits::template equal_one<I>(lhs, rhs) && ...);
     }
 
     template <std::size_t K, bool IsLhsConst, bool IsRhsConst>
